@@ -33,14 +33,14 @@ type c08Msg struct {
 }
 
 type c08Transcript struct {
-	name     string
-	version  int64
-	msgs     []c08Msg
-	groups   [][]rig.ExecSpec
-	expectID map[string]string // run -> output id of the work-done, "" if the run ends in an error
-	expect   map[string]any    // run -> output data
-	afterBadHello bool           // still issue the Execute calls when ReadSchema failed
-	closeAfter    bool           // the server ends its output after the last message (it exits)
+	name          string
+	version       int64
+	msgs          []c08Msg
+	groups        [][]rig.ExecSpec
+	expectID      map[string]string // run -> output id of the work-done, "" if the run ends in an error
+	expect        map[string]any    // run -> output data
+	afterBadHello bool              // still issue the Execute calls when ReadSchema failed
+	closeAfter    bool              // the server ends its output after the last message (it exits)
 }
 
 func rtMsg(id uint32, run string, data any) []byte {
